@@ -254,7 +254,7 @@ func runCase(c Case, st *Stats) *ev.Failure {
 		st = &Stats{}
 	}
 	if c.Verbose {
-		glue.SetKlogVerbosity(5)
+		glue.SetKlogVerbosity(10)
 		defer glue.SetKlogVerbosity(0)
 	}
 	msgs, valid := build(c)
